@@ -131,10 +131,13 @@ def convert(
         else:
             to = Path(outname).suffix
 
+    # File suffixes need a leading dot (Path.with_suffix)
+    suffix = {"c": ".c", "py": ".py", "python": ".py"}.get(to, to)
+
     if to in {".c", ".h", "c"}:
         gotran2c.main(
             fname=fname,
-            suffix=to,
+            suffix=suffix,
             outname=outname,
             scheme=scheme,
             remove_unused=remove_unused,
@@ -145,7 +148,7 @@ def convert(
     if to in {".py", "python", "py"}:
         gotran2py.main(
             fname=fname,
-            suffix=to,
+            suffix=suffix,
             outname=outname,
             scheme=scheme,
             remove_unused=remove_unused,
